@@ -81,140 +81,273 @@ theorem readFrame_frame (e : End) : ∀ (cs : List Bytes) (buf : Bytes) (id : In
       · simp [List.take_append_drop]
       · rw [List.take_append_drop, hl]; exact hd
 
+/-- `poll_next` with a possibly non-empty buffer: same conservation -/
+theorem nextFrame_frame (e : End) (cs : List Bytes) (buf : Bytes) (id : Int) (op : Tlv) (ctl : List Control)
+    (consumed rest : Bytes) (unread : List Bytes)
+    (h : nextFrame e buf cs = .frame id op ctl consumed rest unread) :
+    buf ++ cs.flatten = consumed ++ rest ++ unread.flatten ∧
+    decodeInner (consumed ++ rest) = .frame id op ctl consumed.length ∧ 2 ≤ consumed.length := by
+  unfold nextFrame at h
+  cases hd : decodeInner buf with
+  | needMore => rw [hd] at h; exact readFrame_frame e cs buf id op ctl consumed rest unread h
+  | decodeError => rw [hd] at h; cases h
+  | frame id' op' ctl' n =>
+    rw [hd] at h
+    simp only [ReadOut.frame.injEq] at h
+    obtain ⟨h1, h2, h3, h4, h5, h6⟩ := h
+    subst h1 h2 h3 h4 h5 h6
+    have hn := decodeInner_frame_append buf [] id' op' ctl' n hd
+    have hl : (buf.take n).length = n := by rw [List.length_take]; omega
+    refine ⟨by simp [List.take_append_drop], ?_, by omega⟩
+    rw [List.take_append_drop, hl]; exact hd
+
+theorem readFrame_pending (e : End) : ∀ (cs : List Bytes) (buf : Bytes), readFrame e buf cs = .pending → e = .silent
+  | [], buf, h => by
+    unfold readFrame at h
+    cases e <;> simp at h
+    · split at h <;> cases h
+    · rfl
+  | c :: cs, buf, h => by
+    unfold readFrame at h
+    cases hd : decodeInner (buf ++ c) with
+    | needMore => rw [hd] at h; exact readFrame_pending e cs (buf ++ c) h
+    | decodeError => rw [hd] at h; cases h
+    | frame id' op' ctl' n => rw [hd] at h; cases h
+
+theorem nextFrame_pending (e : End) (cs : List Bytes) (buf : Bytes) (h : nextFrame e buf cs = .pending) : e = .silent := by
+  unfold nextFrame at h
+  cases hd : decodeInner buf with
+  | needMore => rw [hd] at h; exact readFrame_pending e cs buf h
+  | decodeError => rw [hd] at h; cases h
+  | frame id' op' ctl' n => rw [hd] at h; cases h
+
+/-! ### the loop of the turn after the request -/
+
+/-- the bytes still to be looked at shrink with every frame -/
+theorem nextFrame_shrinks (e : End) (cs : List Bytes) (buf : Bytes) (id : Int) (op : Tlv) (ctl : List Control)
+    (consumed rest : Bytes) (unread : List Bytes)
+    (h : nextFrame e buf cs = .frame id op ctl consumed rest unread) :
+    (rest ++ unread.flatten).length + 2 ≤ (buf ++ cs.flatten).length := by
+  have c := nextFrame_frame e cs buf id op ctl consumed rest unread h
+  rw [c.1]; simp only [List.length_append] at *; omega
+
+/-- FUEL: any fuel above the number of bytes still to be looked at gives the same result; in
+particular the `0` case of `awaitResponse` is never reached from `afterRequest` -/
+theorem awaitResponse_fuel (e : End) : ∀ (f f' : Nat) (buf : Bytes) (cs : List Bytes) (sk : List (Int × Tlv)) (skb : Bytes),
+    (buf ++ cs.flatten).length < f → (buf ++ cs.flatten).length < f' →
+    awaitResponse e f buf cs sk skb = awaitResponse e f' buf cs sk skb
+  | 0, _, _, _, _, _, h, _ => by omega
+  | _ + 1, 0, _, _, _, _, _, h => by omega
+  | f + 1, f' + 1, buf, cs, sk, skb, h, h' => by
+    unfold awaitResponse
+    cases hn : nextFrame e buf cs with
+    | error => rfl
+    | eof => rfl
+    | pending => rfl
+    | frame id op ctl consumed rest unread =>
+      simp only
+      split
+      · rfl
+      · have hs := nextFrame_shrinks e cs buf id op ctl consumed rest unread hn
+        exact awaitResponse_fuel e f f' rest unread _ _ (by omega) (by omega)
+
+/-- with enough fuel the turn waits only if the peer stays silent -/
+theorem awaitResponse_waiting (e : End) : ∀ (f : Nat) (buf : Bytes) (cs : List Bytes) (sk : List (Int × Tlv)) (skb : Bytes)
+    (sk' : List (Int × Tlv)) (skb' : Bytes), (buf ++ cs.flatten).length < f →
+    awaitResponse e f buf cs sk skb = .waiting sk' skb' → e = .silent
+  | 0, _, _, _, _, _, _, h, _ => by omega
+  | f + 1, buf, cs, sk, skb, sk', skb', h, hw => by
+    unfold awaitResponse at hw
+    cases hn : nextFrame e buf cs with
+    | error => rw [hn] at hw; cases hw
+    | eof => rw [hn] at hw; cases hw
+    | pending => exact nextFrame_pending e cs buf hn
+    | frame id op ctl consumed rest unread =>
+      rw [hn] at hw
+      simp only at hw
+      split at hw
+      · cases hw
+      · have hs := nextFrame_shrinks e cs buf id op ctl consumed rest unread hn
+        exact awaitResponse_waiting e f rest unread _ _ sk' skb' (by omega) hw
+
+/-- the response: what was skipped before it carries other IDs, and every byte is accounted for -/
+theorem awaitResponse_response (e : End) : ∀ (f : Nat) (buf : Bytes) (cs : List Bytes) (sk : List (Int × Tlv)) (skb : Bytes)
+    (op : Tlv) (sk' : List (Int × Tlv)) (skb' resp rest : Bytes) (unread : List Bytes),
+    awaitResponse e f buf cs sk skb = .response op sk' skb' resp rest unread →
+    ∃ mid midb ctl, sk' = sk ++ mid ∧ skb' = skb ++ midb ∧ (∀ x ∈ mid, x.1 ≠ 1) ∧
+      buf ++ cs.flatten = midb ++ resp ++ rest ++ unread.flatten ∧
+      decodeInner (resp ++ rest) = .frame 1 op ctl resp.length
+  | 0, _, _, _, _, _, _, _, _, _, _, h => by unfold awaitResponse at h; cases h
+  | f + 1, buf, cs, sk, skb, op, sk', skb', resp, rest, unread, h => by
+    unfold awaitResponse at h
+    cases hn : nextFrame e buf cs with
+    | error => rw [hn] at h; cases h
+    | eof => rw [hn] at h; cases h
+    | pending => rw [hn] at h; cases h
+    | frame id op0 ctl consumed rest0 unread0 =>
+      rw [hn] at h
+      simp only at h
+      have c := nextFrame_frame e cs buf id op0 ctl consumed rest0 unread0 hn
+      split at h
+      · next hid =>
+        simp only [Await.response.injEq] at h
+        obtain ⟨h1, h2, h3, h4, h5, h6⟩ := h
+        subst h1 h2 h3 h4 h5 h6 hid
+        exact ⟨[], [], ctl, by simp, by simp, by simp, by simpa using c.1, c.2.1⟩
+      · next hid =>
+        obtain ⟨mid, midb, ctl', e1, e2, e3, e4, e5⟩ :=
+          awaitResponse_response e f rest0 unread0 _ _ op sk' skb' resp rest unread h
+        refine ⟨(id, op0) :: mid, consumed ++ midb, ctl', by simp [e1], by simp [e2], ?_, ?_, e5⟩
+        · intro x hx
+          cases hx with
+          | head => exact hid
+          | tail _ hx => exact e3 x hx
+        · rw [c.1, List.append_assoc consumed rest0, e4]; simp
+
+/-- one step of the loop: a frame for another ID is dropped and the turn goes on -/
+theorem await_skip (e : End) (buf : Bytes) (cs : List Bytes) (sk : List (Int × Tlv)) (skb : Bytes)
+    {id : Int} {op : Tlv} {ctl : List Control} {consumed rest : Bytes} {unread : List Bytes}
+    (hn : nextFrame e buf cs = .frame id op ctl consumed rest unread) (hid : id ≠ 1) :
+    await e buf cs sk skb = await e rest unread (sk ++ [(id, op)]) (skb ++ consumed) := by
+  have hs := nextFrame_shrinks e cs buf id op ctl consumed rest unread hn
+  unfold await
+  rw [awaitResponse, hn]
+  simp only [hid, if_false]
+  exact awaitResponse_fuel e _ _ rest unread _ _ (by omega) (by omega)
+
+/-- one step of the loop: the frame with the request's ID ends it -/
+theorem await_hit (e : End) (buf : Bytes) (cs : List Bytes) (sk : List (Int × Tlv)) (skb : Bytes)
+    {op : Tlv} {ctl : List Control} {consumed rest : Bytes} {unread : List Bytes}
+    (hn : nextFrame e buf cs = .frame 1 op ctl consumed rest unread) :
+    await e buf cs sk skb = .response op sk skb consumed rest unread := by
+  unfold await
+  rw [awaitResponse, hn]
+  simp
+
 /-! ### after the request has been written: one lemma per way the turn / `op_call` / `success()` ends -/
 
 /-- the record built up to the point where the StartTLS response has been accepted -/
-def okBase (op : Tlv) (consumed rest : Bytes) : Result :=
-  { outcome := .hang, cleartextWrites := [startTlsReq], decoded := [(1, op)], consumed := consumed, discarded := rest }
+def okBase (op : Tlv) (sk : List (Int × Tlv)) (skb resp rest : Bytes) : Result :=
+  { outcome := .hang, cleartextWrites := [startTlsReq], decoded := sk ++ [(1, op)], consumed := skb ++ resp,
+    response := resp, discarded := rest }
 
 section AfterRequest
-variable (lib : TlsLib) (c : Cfg) (s : Server) (buf : Bytes) (cs : List Bytes)
+variable (lib : TlsLib) (c : Cfg) (s : Server) (buf : Bytes) (cs : List Bytes) (sk0 : List (Int × Tlv)) (skb0 : Bytes)
 
-theorem afterRequest_error (h : readFrame s.atEnd buf cs = .error) :
-    (afterRequest lib c s buf cs).outcome = .err .driverEnded := by
+
+theorem afterRequest_driverErr {sk : List (Int × Tlv)} {skb : Bytes} (h : await s.atEnd buf cs sk0 skb0 = .driverErr sk skb) :
+    (afterRequest lib c s buf cs sk0 skb0).outcome = .err .driverEnded := by
   simp [afterRequest, h]
 
-theorem afterRequest_eof (h : readFrame s.atEnd buf cs = .eof) :
-    (afterRequest lib c s buf cs).outcome = stall c := by
+theorem afterRequest_waiting {sk : List (Int × Tlv)} {skb : Bytes} (h : await s.atEnd buf cs sk0 skb0 = .waiting sk skb) :
+    (afterRequest lib c s buf cs sk0 skb0).outcome = stall c := by
   simp [afterRequest, h]
 
-theorem afterRequest_pending (h : readFrame s.atEnd buf cs = .pending) :
-    (afterRequest lib c s buf cs).outcome = stall c := by
-  simp [afterRequest, h]
-
-theorem afterRequest_foreign {id : Int} {op : Tlv} {ctl : List Control} {consumed rest : Bytes} {unread : List Bytes}
-    (h : readFrame s.atEnd buf cs = .frame id op ctl consumed rest unread) (hid : id ≠ 1) :
-    (afterRequest lib c s buf cs).outcome = stall c := by
-  simp [afterRequest, h, hid]
-
-theorem afterRequest_panic {op : Tlv} {ctl : List Control} {consumed rest : Bytes} {unread : List Bytes}
-    (h : readFrame s.atEnd buf cs = .frame 1 op ctl consumed rest unread) (hr : resultExt op = none) :
-    (afterRequest lib c s buf cs).outcome = .panic := by
+theorem afterRequest_panic {op : Tlv} {sk : List (Int × Tlv)} {skb resp rest : Bytes} {unread : List Bytes}
+    (h : await s.atEnd buf cs sk0 skb0 = .response op sk skb resp rest unread) (hr : resultExt op = none) :
+    (afterRequest lib c s buf cs sk0 skb0).outcome = .panic := by
   simp [afterRequest, h, hr]
 
-theorem afterRequest_refused {op : Tlv} {ctl : List Control} {consumed rest : Bytes} {unread : List Bytes} {r : ResultExt}
-    (h : readFrame s.atEnd buf cs = .frame 1 op ctl consumed rest unread) (hr : resultExt op = some r)
-    (hrc : r.rc ≠ 0) :
-    (afterRequest lib c s buf cs).outcome = .err (.ldapResult r.rc) := by
+theorem afterRequest_refused {op : Tlv} {sk : List (Int × Tlv)} {skb resp rest : Bytes} {unread : List Bytes} {r : ResultExt}
+    (h : await s.atEnd buf cs sk0 skb0 = .response op sk skb resp rest unread) (hr : resultExt op = some r) (hrc : r.rc ≠ 0) :
+    (afterRequest lib c s buf cs sk0 skb0).outcome = .err (.ldapResult r.rc) := by
   simp [afterRequest, h, hr, hrc]
 
 /-- the StartTLS response is a success: everything up to the TLS phase is determined -/
-theorem afterRequest_success {op : Tlv} {ctl : List Control} {consumed rest : Bytes} {unread : List Bytes} {r : ResultExt}
-    (h : readFrame s.atEnd buf cs = .frame 1 op ctl consumed rest unread) (hr : resultExt op = some r)
-    (hrc : r.rc = 0) :
-    afterRequest lib c s buf cs = tlsPhase lib c s (okBase op consumed rest) unread.flatten := by
+theorem afterRequest_success {op : Tlv} {sk : List (Int × Tlv)} {skb resp rest : Bytes} {unread : List Bytes} {r : ResultExt}
+    (h : await s.atEnd buf cs sk0 skb0 = .response op sk skb resp rest unread) (hr : resultExt op = some r) (hrc : r.rc = 0) :
+    afterRequest lib c s buf cs sk0 skb0 = tlsPhase lib c s (okBase op sk skb resp rest) unread.flatten := by
   simp [afterRequest, h, hr, hrc, okBase]
 
 theorem afterRequest_ok_iff :
-    (afterRequest lib c s buf cs).outcome = .okSecure ↔
-      ∃ op ctl consumed rest unread r, readFrame s.atEnd buf cs = .frame 1 op ctl consumed rest unread ∧
+    (afterRequest lib c s buf cs sk0 skb0).outcome = .okSecure ↔
+      ∃ op sk skb resp rest unread r, await s.atEnd buf cs sk0 skb0 = .response op sk skb resp rest unread ∧
         resultExt op = some r ∧ r.rc = 0 ∧ lib unread.flatten s.peer c.verifyOff = .ok := by
   constructor
   · intro h
-    cases hf : readFrame s.atEnd buf cs with
-    | error => rw [afterRequest_error lib c s buf cs hf] at h; cases h
-    | eof => rw [afterRequest_eof lib c s buf cs hf] at h; exact absurd h (stall_ne_okSecure c)
-    | pending => rw [afterRequest_pending lib c s buf cs hf] at h; exact absurd h (stall_ne_okSecure c)
-    | frame id op ctl consumed rest unread =>
-      by_cases hid : id = 1
-      · subst hid
-        cases hr : resultExt op with
-        | none => rw [afterRequest_panic lib c s buf cs hf hr] at h; cases h
-        | some r =>
-          by_cases hrc : r.rc = 0
-          · rw [afterRequest_success lib c s buf cs hf hr hrc, tlsPhase_ok_iff] at h
-            exact ⟨op, ctl, consumed, rest, unread, r, rfl, hr, hrc, h⟩
-          · rw [afterRequest_refused lib c s buf cs hf hr hrc] at h; cases h
-      · rw [afterRequest_foreign lib c s buf cs hf hid] at h; exact absurd h (stall_ne_okSecure c)
-  · rintro ⟨op, ctl, consumed, rest, unread, r, hf, hr, hrc, hl⟩
-    rw [afterRequest_success lib c s buf cs hf hr hrc, tlsPhase_ok_iff]; exact hl
+    cases hf : await s.atEnd buf cs sk0 skb0 with
+    | driverErr sk skb => rw [afterRequest_driverErr lib c s buf cs sk0 skb0 hf] at h; cases h
+    | waiting sk skb => rw [afterRequest_waiting lib c s buf cs sk0 skb0 hf] at h; exact absurd h (stall_ne_okSecure c)
+    | response op sk skb resp rest unread =>
+      cases hr : resultExt op with
+      | none => rw [afterRequest_panic lib c s buf cs sk0 skb0 hf hr] at h; cases h
+      | some r =>
+        by_cases hrc : r.rc = 0
+        · rw [afterRequest_success lib c s buf cs sk0 skb0 hf hr hrc, tlsPhase_ok_iff] at h
+          exact ⟨op, sk, skb, resp, rest, unread, r, rfl, hr, hrc, h⟩
+        · rw [afterRequest_refused lib c s buf cs sk0 skb0 hf hr hrc] at h; cases h
+  · rintro ⟨op, sk, skb, resp, rest, unread, r, hf, hr, hrc, hl⟩
+    rw [afterRequest_success lib c s buf cs sk0 skb0 hf hr hrc, tlsPhase_ok_iff]; exact hl
 
 /-- invariants of every path after the request -/
 theorem afterRequest_invariants :
-    let q := afterRequest lib c s buf cs
-    q.cleartextWrites = [startTlsReq] ∧ q.sessionBuf = [] ∧ q.decoded.length ≤ 1 ∧ q.outcome ≠ .okPlain ∧
+    let q := afterRequest lib c s buf cs sk0 skb0
+    q.cleartextWrites = [startTlsReq] ∧ q.sessionBuf = [] ∧ q.outcome ≠ .okPlain ∧
     (q.hasTls = true ↔ q.outcome = .okSecure) := by
   intro q
-  cases hf : readFrame s.atEnd buf cs with
-  | error => simp [q, afterRequest, hf]
-  | eof => simp [q, afterRequest, hf, stall_ne_okPlain, stall_ne_okSecure]
-  | pending => simp [q, afterRequest, hf, stall_ne_okPlain, stall_ne_okSecure]
-  | frame id op ctl consumed rest unread =>
-    by_cases hid : id = 1
-    · subst hid
-      cases hr : resultExt op with
-      | none => simp [q, afterRequest, hf, hr]
-      | some r =>
-        by_cases hrc : r.rc = 0
-        · have e : q = tlsPhase lib c s (okBase op consumed rest) unread.flatten :=
-            afterRequest_success lib c s buf cs hf hr hrc
-          have f := tlsPhase_fields lib c s (okBase op consumed rest) unread.flatten
-          rw [e]
-          refine ⟨f.1, f.2.2.2.2.1, ?_, tlsPhase_not_okPlain _ _ _ _ _, tlsPhase_hasTls _ _ _ _ _ rfl⟩
-          rw [f.2.1]; simp [okBase]
-        · simp [q, afterRequest, hf, hr, hrc]
-    · simp [q, afterRequest, hf, hid, stall_ne_okPlain, stall_ne_okSecure]
+  cases hf : await s.atEnd buf cs sk0 skb0 with
+  | driverErr sk skb => simp [q, afterRequest, hf]
+  | waiting sk skb => simp [q, afterRequest, hf, stall_ne_okPlain, stall_ne_okSecure]
+  | response op sk skb resp rest unread =>
+    cases hr : resultExt op with
+    | none => simp [q, afterRequest, hf, hr]
+    | some r =>
+      by_cases hrc : r.rc = 0
+      · have e : q = tlsPhase lib c s (okBase op sk skb resp rest) unread.flatten :=
+          afterRequest_success lib c s buf cs sk0 skb0 hf hr hrc
+        have f := tlsPhase_fields lib c s (okBase op sk skb resp rest) unread.flatten
+        rw [e]
+        exact ⟨f.1, f.2.2.2.2.1, tlsPhase_not_okPlain _ _ _ _ _, tlsPhase_hasTls _ _ _ _ _ rfl⟩
+      · simp [q, afterRequest, hf, hr, hrc]
 
 end AfterRequest
 
-/-! ### the first event of the turn -/
+/-! ### the events before the request -/
 
-theorem firstEvent_sent_flatten (s : Server) (buf : Bytes) (cs : List Bytes) (h : firstEvent s = .sent buf cs) :
-    buf ++ cs.flatten = s.chunks.flatten := by
-  unfold firstEvent at h
-  split at h
-  · split at h
-    · next hc => split at h <;> (try cases h) <;> simp [hc]
-    · next ch rest hc => split at h <;> (try cases h) <;> simp [hc]
-  · cases h; simp
+theorem preRequest_sent (e : End) : ∀ (k : Nat) (buf : Bytes) (cs : List Bytes) (sk : List (Int × Tlv)) (skb : Bytes)
+    (buf' : Bytes) (cs' : List Bytes) (sk' : List (Int × Tlv)) (skb' : Bytes),
+    preRequest e k buf cs sk skb = .sent buf' cs' sk' skb' →
+    ∃ midb, skb' = skb ++ midb ∧ buf ++ cs.flatten = midb ++ buf' ++ cs'.flatten
+  | 0, buf, cs, sk, skb, buf', cs', sk', skb', h => by
+    unfold preRequest at h
+    cases h
+    exact ⟨[], by simp, by simp⟩
+  | k + 1, buf, cs, sk, skb, buf', cs', sk', skb', h => by
+    unfold preRequest at h
+    cases hn : nextFrame e buf cs with
+    | error => rw [hn] at h; cases h
+    | eof => rw [hn] at h; cases h
+    | pending => rw [hn] at h; cases h; exact ⟨[], by simp, by simp⟩
+    | frame id op ctl consumed rest unread =>
+      rw [hn] at h
+      obtain ⟨midb, e1, e2⟩ := preRequest_sent e k rest unread _ _ buf' cs' sk' skb' h
+      have c := nextFrame_frame e cs buf id op ctl consumed rest unread hn
+      exact ⟨consumed ++ midb, by simp [e1], by rw [c.1, List.append_assoc consumed rest, e2]; simp⟩
 
-theorem firstEvent_endedOk_len (s : Server) (d : List (Int × Tlv)) (k : Bytes) (h : firstEvent s = .endedOk d k) :
-    d.length ≤ 1 := by
-  unfold firstEvent at h
-  split at h
-  · split at h
-    · split at h <;> (try cases h) <;> simp
-    · split at h <;> (try cases h) <;> simp
-  · cases h
+theorem firstEvent_sent_flatten (s : Server) (buf : Bytes) (cs : List Bytes) (sk : List (Int × Tlv)) (skb : Bytes)
+    (h : firstEvent s = .sent buf cs sk skb) : skb ++ buf ++ cs.flatten = s.chunks.flatten := by
+  obtain ⟨midb, e1, e2⟩ := preRequest_sent s.atEnd s.early [] s.chunks [] [] buf cs sk skb h
+  simp only [List.nil_append] at e1 e2
+  rw [e1, e2]
 
-theorem firstEvent_not_readFirst (s : Server) (h : s.readFirst = false) : firstEvent s = .sent [] s.chunks := by
-  simp [firstEvent, h]
+theorem firstEvent_not_early (s : Server) (h : s.early = 0) : firstEvent s = .sent [] s.chunks [] [] := by
+  simp [firstEvent, h, preRequest]
 
-theorem answer_eq_some (s : Server) (x : ReadOut) :
-    answer s = some x ↔ ∃ buf cs, firstEvent s = .sent buf cs ∧ readFrame s.atEnd buf cs = x := by
+theorem answer_eq_some (s : Server) (x : Await) :
+    answer s = some x ↔ ∃ buf cs sk skb, firstEvent s = .sent buf cs sk skb ∧
+      await s.atEnd buf cs sk skb = x := by
   unfold answer
   cases firstEvent s with
-  | sent buf cs =>
+  | sent buf cs sk skb =>
     simp only [Option.some.injEq]
     constructor
-    · intro h; exact ⟨buf, cs, rfl, h⟩
-    · rintro ⟨b, k, hb, h⟩; cases hb; exact h
-  | endedOk d k => simp
-  | endedErr => simp
+    · intro h; exact ⟨buf, cs, sk, skb, rfl, h⟩
+    · rintro ⟨b, k, a1, a2, hb, h⟩; cases hb; exact h
+  | endedErr sk skb => simp
 
-theorem answer_not_readFirst (s : Server) (h : s.readFirst = false) :
-    answer s = some (readFrame s.atEnd [] s.chunks) := by
-  simp [answer, firstEvent_not_readFirst s h]
+theorem answer_not_early (s : Server) (h : s.early = 0) :
+    answer s = some (await s.atEnd [] s.chunks [] []) := by
+  simp [answer, firstEvent_not_early s h]
 
 /-! ### the whole establishment -/
 
@@ -228,14 +361,14 @@ theorem establish_direct (hm : c.mode = .direct) :
     establish lib c s = tlsPhase lib c s { outcome := .hang } s.chunks.flatten := by
   simp [establish, hm]
 
-theorem establish_startTls_sent (hm : c.mode = .startTls) {buf : Bytes} {cs : List Bytes}
-    (hf : firstEvent s = .sent buf cs) : establish lib c s = afterRequest lib c s buf cs := by
+theorem establish_startTls_sent (hm : c.mode = .startTls) {buf : Bytes} {cs : List Bytes} {sk : List (Int × Tlv)} {skb : Bytes}
+    (hf : firstEvent s = .sent buf cs sk skb) : establish lib c s = afterRequest lib c s buf cs sk skb := by
   simp [establish, hm, startTls, hf]
 
 /-- invariants of every path -/
 theorem establish_invariants :
     let R := establish lib c s
-    R.sessionBuf = [] ∧ R.decoded.length ≤ 1 ∧ (R.hasTls = true ↔ R.outcome = .okSecure) ∧
+    R.sessionBuf = [] ∧ (R.hasTls = true ↔ R.outcome = .okSecure) ∧
     (R.outcome = .okPlain ↔ c.mode = .plain) ∧
     (R.cleartextWrites = [] ∨ (R.cleartextWrites = [startTlsReq] ∧ c.mode = .startTls)) := by
   intro R
@@ -245,27 +378,22 @@ theorem establish_invariants :
     have e : R = tlsPhase lib c s { outcome := .hang } s.chunks.flatten := establish_direct lib c s hm
     have f := tlsPhase_fields lib c s { outcome := .hang } s.chunks.flatten
     rw [e]
-    refine ⟨f.2.2.2.2.1, ?_, tlsPhase_hasTls _ _ _ _ _ rfl, ?_, Or.inl f.1⟩
-    · rw [f.2.1]; simp
-    · simp [tlsPhase_not_okPlain]
+    exact ⟨f.2.2.2.2.1, tlsPhase_hasTls _ _ _ _ _ rfl, by simp [tlsPhase_not_okPlain], Or.inl f.1⟩
   | startTls =>
     cases hf : firstEvent s with
-    | sent buf cs =>
-      have e : R = afterRequest lib c s buf cs := establish_startTls_sent lib c s hm hf
-      have i := afterRequest_invariants lib c s buf cs
+    | sent buf cs sk skb =>
+      have e : R = afterRequest lib c s buf cs sk skb := establish_startTls_sent lib c s hm hf
+      have i := afterRequest_invariants lib c s buf cs sk skb
       rw [e]
-      exact ⟨i.2.1, i.2.2.1, i.2.2.2.2, by simp [i.2.2.2.1], Or.inr ⟨i.1, rfl⟩⟩
-    | endedOk d k =>
-      have hl := firstEvent_endedOk_len s d k hf
-      simp [R, establish, hm, startTls, hf, hl, stall_ne_okPlain, stall_ne_okSecure]
-    | endedErr => simp [R, establish, hm, startTls, hf]
+      exact ⟨i.2.1, i.2.2.2, by simp [i.2.2.1], Or.inr ⟨i.1, rfl⟩⟩
+    | endedErr sk skb => simp [R, establish, hm, startTls, hf]
 
 /-- EXACTLY when a handle over TLS is handed back -/
 theorem establish_ok_iff :
     (establish lib c s).outcome = .okSecure ↔
       (c.mode = .direct ∧ lib s.chunks.flatten s.peer c.verifyOff = .ok) ∨
-      (c.mode = .startTls ∧ ∃ op ctl consumed rest unread r,
-          answer s = some (.frame 1 op ctl consumed rest unread) ∧ resultExt op = some r ∧ r.rc = 0 ∧
+      (c.mode = .startTls ∧ ∃ op sk skb resp rest unread r,
+          answer s = some (.response op sk skb resp rest unread) ∧ resultExt op = some r ∧ r.rc = 0 ∧
           lib unread.flatten s.peer c.verifyOff = .ok) := by
   cases hm : c.mode with
   | plain => simp [establish_plain lib c s hm]
@@ -273,70 +401,72 @@ theorem establish_ok_iff :
   | startTls =>
     simp only [reduceCtorEq, false_and, false_or, true_and]
     cases hf : firstEvent s with
-    | sent buf cs =>
+    | sent buf cs sk skb =>
       rw [establish_startTls_sent lib c s hm hf, afterRequest_ok_iff]
       simp [answer, hf]
-    | endedOk d k => simp [establish, hm, startTls, hf, stall_ne_okSecure, answer]
-    | endedErr => simp [establish, hm, startTls, hf, answer]
+    | endedErr sk skb => simp [establish, hm, startTls, hf, answer]
 
-/-- the request was never written (the socket was served first and ended the turn) -/
+/-- the request was never written (the socket was served first and ended the turn with `Err`) -/
 theorem establish_never_sent (hm : c.mode = .startTls) (ha : answer s = none) :
-    (establish lib c s).cleartextWrites = [] ∧
-    ((establish lib c s).outcome = stall c ∨ (establish lib c s).outcome = .err .driverEnded) := by
+    (establish lib c s).cleartextWrites = [] ∧ (establish lib c s).outcome = .err .driverEnded := by
   cases hf : firstEvent s with
-  | sent buf cs => simp [answer, hf] at ha
-  | endedOk d k => simp [establish, hm, startTls, hf]
-  | endedErr => simp [establish, hm, startTls, hf]
+  | sent buf cs sk skb => simp [answer, hf] at ha
+  | endedErr sk skb => simp [establish, hm, startTls, hf]
 
 /-- how each kind of answer ends the establishment -/
-theorem establish_answer (hm : c.mode = .startTls) (x : ReadOut) (ha : answer s = some x) :
+theorem establish_answer (hm : c.mode = .startTls) (x : Await) (ha : answer s = some x) :
     (establish lib c s).cleartextWrites = [startTlsReq] ∧
-    (x = .error → (establish lib c s).outcome = .err .driverEnded) ∧
-    (x = .eof ∨ x = .pending → (establish lib c s).outcome = stall c) ∧
-    (∀ id op ctl consumed rest unread, x = .frame id op ctl consumed rest unread →
-      (id ≠ 1 → (establish lib c s).outcome = stall c) ∧
-      (id = 1 → resultExt op = none → (establish lib c s).outcome = .panic) ∧
-      (id = 1 → ∀ r, resultExt op = some r →
+    (∀ sk skb, x = .driverErr sk skb → (establish lib c s).outcome = .err .driverEnded) ∧
+    (∀ sk skb, x = .waiting sk skb → (establish lib c s).outcome = stall c ∧ s.atEnd = .silent) ∧
+    (∀ op sk skb resp rest unread, x = .response op sk skb resp rest unread →
+      (resultExt op = none → (establish lib c s).outcome = .panic) ∧
+      (∀ r, resultExt op = some r →
         (r.rc ≠ 0 → (establish lib c s).outcome = .err (.ldapResult r.rc)) ∧
         (r.rc = 0 → (establish lib c s).outcome =
           (match lib unread.flatten s.peer c.verifyOff with
            | .ok => .okSecure | .error => .err .nativeTls | .pending => stall c)))) := by
-  obtain ⟨buf, cs, hf, hx⟩ := (answer_eq_some s x).mp ha
+  obtain ⟨buf, cs, sk0, skb0, hf, hx⟩ := (answer_eq_some s x).mp ha
   rw [establish_startTls_sent lib c s hm hf]
-  refine ⟨(afterRequest_invariants lib c s buf cs).1, ?_, ?_, ?_⟩
-  · intro h; exact afterRequest_error lib c s buf cs (hx.trans h)
-  · rintro (h | h)
-    · exact afterRequest_eof lib c s buf cs (hx.trans h)
-    · exact afterRequest_pending lib c s buf cs (hx.trans h)
-  · intro id op ctl consumed rest unread h
+  refine ⟨(afterRequest_invariants lib c s buf cs sk0 skb0).1, ?_, ?_, ?_⟩
+  · intro sk skb h; exact afterRequest_driverErr lib c s buf cs sk0 skb0 (hx.trans h)
+  · intro sk skb h
+    exact ⟨afterRequest_waiting lib c s buf cs sk0 skb0 (hx.trans h),
+      awaitResponse_waiting s.atEnd ((buf ++ cs.flatten).length + 1) buf cs sk0 skb0 sk skb (by omega)
+        (by unfold await at hx; exact hx.trans h)⟩
+  · intro op sk skb resp rest unread h
     have hr := hx.trans h
-    refine ⟨fun hid => afterRequest_foreign lib c s buf cs hr hid, ?_, ?_⟩
-    · intro hid hres; subst hid; exact afterRequest_panic lib c s buf cs hr hres
-    · intro hid r hres; subst hid
-      refine ⟨fun hrc => afterRequest_refused lib c s buf cs hr hres hrc, fun hrc => ?_⟩
-      rw [afterRequest_success lib c s buf cs hr hres hrc, tlsPhase_outcome]
+    refine ⟨fun hres => afterRequest_panic lib c s buf cs sk0 skb0 hr hres, fun r hres => ?_⟩
+    refine ⟨fun hrc => afterRequest_refused lib c s buf cs sk0 skb0 hr hres hrc, fun hrc => ?_⟩
+    rw [afterRequest_success lib c s buf cs sk0 skb0 hr hres hrc, tlsPhase_outcome]
 
 /-- where every cleartext byte went when StartTLS establishment succeeds -/
 theorem establish_ok_bytes (hm : c.mode = .startTls) (hok : (establish lib c s).outcome = .okSecure) :
     let R := establish lib c s
-    ∃ op ctl r, R.decoded = [(1, op)] ∧ resultExt op = some r ∧ r.rc = 0 ∧
+    ∃ pre preb op ctl r, R.decoded = pre ++ [(1, op)] ∧ R.consumed = preb ++ R.response ∧
+      resultExt op = some r ∧ r.rc = 0 ∧
       s.chunks.flatten = R.consumed ++ R.discarded ++ R.tlsStale ∧
-      decodeInner (R.consumed ++ R.discarded) = .frame 1 op ctl R.consumed.length ∧
+      decodeInner (R.response ++ R.discarded) = .frame 1 op ctl R.response.length ∧
       lib R.tlsStale s.peer c.verifyOff = .ok := by
   intro R
   cases hf : firstEvent s with
-  | endedOk d k => simp [establish, hm, startTls, hf, stall_ne_okSecure] at hok
-  | endedErr => simp [establish, hm, startTls, hf] at hok
-  | sent buf cs =>
-    have e : R = afterRequest lib c s buf cs := establish_startTls_sent lib c s hm hf
+  | endedErr sk skb => simp [establish, hm, startTls, hf] at hok
+  | sent buf cs sk0 skb0 =>
+    have e : R = afterRequest lib c s buf cs sk0 skb0 := establish_startTls_sent lib c s hm hf
     rw [establish_startTls_sent lib c s hm hf, afterRequest_ok_iff] at hok
-    obtain ⟨op, ctl, consumed, rest, unread, r, hfr, hr, hrc, hl⟩ := hok
-    have f := tlsPhase_fields lib c s (okBase op consumed rest) unread.flatten
-    have cons := readFrame_frame s.atEnd cs buf 1 op ctl consumed rest unread hfr
-    rw [e, afterRequest_success lib c s buf cs hfr hr hrc]
-    refine ⟨op, ctl, r, f.2.1, hr, hrc, ?_, ?_, ?_⟩
-    · rw [f.2.2.1, f.2.2.2.1, f.2.2.2.2.2, ← firstEvent_sent_flatten s buf cs hf]; exact cons.1
-    · rw [f.2.2.1, f.2.2.2.1]; exact cons.2.1
+    obtain ⟨op, sk, skb, resp, rest, unread, r, haw, hr, hrc, hl⟩ := hok
+    obtain ⟨mid, midb, ctl, e1, e2, _, e4, e5⟩ :=
+      awaitResponse_response s.atEnd _ buf cs sk0 skb0 op sk skb resp rest unread (by unfold await at haw; exact haw)
+    have f := tlsPhase_fields lib c s (okBase op sk skb resp rest) unread.flatten
+    have hfl := firstEvent_sent_flatten s buf cs sk0 skb0 hf
+    have hresp : (tlsPhase lib c s (okBase op sk skb resp rest) unread.flatten).response = resp := by
+      simp only [tlsPhase]; split <;> simp [okBase]
+    rw [e, afterRequest_success lib c s buf cs sk0 skb0 haw hr hrc]
+    refine ⟨sk, skb, op, ctl, r, f.2.1, ?_, hr, hrc, ?_, ?_, ?_⟩
+    · rw [f.2.2.1, hresp]; rfl
+    · rw [f.2.2.1, f.2.2.2.1, f.2.2.2.2.2, ← hfl]
+      simp only [okBase, e2]
+      rw [List.append_assoc skb0 buf, e4]; simp
+    · rw [hresp, f.2.2.2.1]; exact e5
     · rw [f.2.2.2.2.2]; exact hl
 
 end Establish
